@@ -103,7 +103,7 @@ def stubs2():
     return {"Bytecode::is_eip7702": is_7702, "<Level as PartialOrd>::le": sc.m_level_le}
 
 
-def cfg2():
+def cfg2(NJ=NJ):
     import glob, os
     ov = revm_types.base_overrides()
     ov.update(revm_models.type_overrides(WIDE))
@@ -123,7 +123,7 @@ def cfg2():
             "loops": {"*": {"*": (NJ + 2, "assert")}}}
 
 
-def build_h2():
+def build_h2(NJ=NJ):
     def b(tr):
         H = hz.Harness(tr, "c13_h2")
         j = H.local("journal", "Journal<DB, JournalEntry>")
@@ -204,7 +204,9 @@ def specs(tier):
                  bounds={"candidates": 2, "value_bits": 8}),
             Spec("h2_journal_scan", build_h2(), cfg=cfg2(), unwind=NJ + 3, timeout=1800,
                  desc="real ReserveJournalExt::delegated_debits_since + is_root_value_transfer + balance_before_entry over ANY journal of <= 3 balance-relevant entries, any journal state of 3 accounts, any checkpoint and transaction; oracle written over the harness state",
-                 bounds={"journal_entries": NJ, "addresses": NA2, "value_bits": 8})]
+                 bounds={"journal_entries": NJ, "addresses": NA2, "value_bits": 8})] + ([
+            Spec("h2_journal_scan_4", build_h2(4), cfg=cfg2(4), unwind=7, timeout=5400,
+                 desc="the journal-scan kernel with journals of <= 4 entries", bounds={"journal_entries": 4, "addresses": NA2, "value_bits": 8})] if tier == "thorough" else [])
 
 
 def extra_results(tier):
